@@ -58,7 +58,7 @@ type Step struct {
 // Delivery is one ProcessBlock call.
 type Delivery struct {
 	Node        *node.TreeNode
-	BadKind     string // "" honest; dup-in-tx|dup-across-txs|spent-on-branch|never-created|side-only
+	BadKind     string // "" honest; dup-in-tx|dup-across-txs|chain-spent|side-only|never-created
 	Sanity      bool   // the block is rejected by context-free checks whatever its parent
 	ExtendsTip  bool   // its parent was the reported tip when it was delivered
 	ParentKnown bool   // parent delivered before (not an orphan delivery)
@@ -106,6 +106,9 @@ type Machine struct {
 	SideBad, OrphanDeliveries                int
 	HonestPoolRejects                        int
 	MaxHeight                                uint32
+	MaxReorgDepth                            int
+	RespendReorgs                            int // reorgs after which a restored output is spent by a different transaction
+	ReminedReorgs                            int // reorgs that mine a disconnected transaction again on the new branch
 
 	salt uint64
 }
@@ -283,8 +286,19 @@ func (m *Machine) makePay(t *rapid.T, cands []node.Coin, atHeight uint32, kind s
 	first := funded[rapid.IntRange(0, len(funded)-1).Draw(t, "coin")]
 	coins := []node.Coin{first}
 	extra := rapid.IntRange(0, m.Opts.MaxIns-1).Draw(t, "extra-ins")
+	var zeros []node.Coin
+	for _, c := range cands {
+		if c.Value == 0 {
+			zeros = append(zeros, c)
+		}
+	}
 	for i := 0; i < extra && len(cands) > 1; i++ {
-		c := cands[rapid.IntRange(0, len(cands)-1).Draw(t, "coin+")]
+		var c node.Coin
+		if len(zeros) > 0 && rapid.Bool().Draw(t, "zero-coin") {
+			c = zeros[rapid.IntRange(0, len(zeros)-1).Draw(t, "coin0")] // spend a zero-value output
+		} else {
+			c = cands[rapid.IntRange(0, len(cands)-1).Draw(t, "coin+")]
+		}
 		dup := false
 		for _, x := range coins {
 			if x.Op == c.Op {
@@ -469,6 +483,39 @@ func (m *Machine) sync(t *rapid.T) {
 	}
 	if len(m.Last.Disconnected) > 0 {
 		m.Reorgs++
+		if d := len(m.Last.Disconnected); d > m.MaxReorgDepth {
+			m.MaxReorgDepth = d
+		}
+		// spent-ness restored and re-applied differently: an outpoint spent by a
+		// disconnected block is spent by another transaction of a newly connected block
+		was := map[ctypes.OutPoint]common.Uint256{}
+		for _, b := range m.Last.Disconnected {
+			for _, tx := range b.Transactions[1:] {
+				for _, in := range tx.Inputs() {
+					was[in.Previous] = tx.Hash()
+				}
+			}
+		}
+		respend, remined := false, false
+		for _, b := range m.Last.Connected {
+			for _, tx := range b.Transactions[1:] {
+				for _, in := range tx.Inputs() {
+					if by, ok := was[in.Previous]; ok {
+						if by != tx.Hash() {
+							respend = true
+						} else {
+							remined = true
+						}
+					}
+				}
+			}
+		}
+		if respend {
+			m.RespendReorgs++
+		}
+		if remined {
+			m.ReminedReorgs++
+		}
 		for _, b := range m.Last.Disconnected {
 			if len(b.Transactions) > 1 {
 				m.ReorgsWithSpend++
@@ -858,7 +905,18 @@ func (m *Machine) branchTxs(t *rapid.T, l *Ledger, h uint32) []*KnownTx {
 // actFork grows 1..3 blocks on some tree node and delivers them now, later or child-first.
 func (m *Machine) actFork(t *rapid.T) {
 	parent := m.pickParent(t)
+	// how many blocks the branch needs to overtake the reported tip
+	need := 1
+	if m.ActiveTip.Height >= parent.Height {
+		need = int(m.ActiveTip.Height-parent.Height) + 1
+	}
+	if need > 4 {
+		need = 4
+	}
 	n := rapid.IntRange(1, 3).Draw(t, "len")
+	if rapid.Bool().Draw(t, "overtake") {
+		n = need
+	}
 	var built []*node.TreeNode
 	cur := parent
 	for i := 0; i < n; i++ {
